@@ -57,9 +57,9 @@ static Runner G;
 // ---------------------------------------------------------------------------------------------
 // families, ops
 
-enum Fam { F_PGETV, F_PGET_TYPED, F_GET, F_READX, F_READ, F_SUB, F_SUBX, F_SKIP, F_CSTR, F_LINE, F_TRUNC, F_BUFW, F_STRW, F_HISTORY, F_PAST, NFAM };
+enum Fam { F_PGETV, F_PGET_TYPED, F_GET, F_READX, F_READ, F_SUB, F_SUBX, F_SKIP, F_CSTR, F_LINE, F_TRUNC, F_BUFW, F_STRW, F_HISTORY, F_PAST, F_ALIAS, NFAM };
 static const char* const FAM_NAME[NFAM] = {"pgetv", "pget_typed", "get", "readx", "read", "sub", "subx", "skip", "cstr", "get_line",
-                                           "truncate", "buffer_writer", "string_writer", "history", "cursor_past_end"};
+                                           "truncate", "buffer_writer", "string_writer", "history", "cursor_past_end", "string_writer_alias"};
 
 enum Op {
   OP_PGETV, OP_PGET_T, OP_PGET_W1, OP_PGET_W2, OP_PGET_W3, OP_PGET_W4, OP_PGET_W6, OP_PGET_W8,
@@ -70,6 +70,7 @@ enum Op {
   OP_BW_PWRITE, OP_BW_PWRITE_S, OP_BW_WRITE, OP_BW_WRITE_S,
   OP_BW_PPUT_W1, OP_BW_PPUT_W2, OP_BW_PPUT_W4, OP_BW_PPUT_W8, OP_BW_PUT_W1, OP_BW_PUT_W2, OP_BW_PUT_W4, OP_BW_PUT_W8,
   OP_SW_PPUT_W1, OP_SW_PPUT_W2, OP_SW_PPUT_W4, OP_SW_PPUT_W8, OP_SW_APPEND,
+  OP_SWA_PUT, OP_SWA_WRITE, OP_SWA_WRITE_S, OP_SWA_PPUT,
   NOPS
 };
 static const char* const OP_NAME[NOPS] = {
@@ -80,7 +81,8 @@ static const char* const OP_NAME[NOPS] = {
     "skip", "skip_if", "pget_cstr", "get_cstr", "get_line", "all", "truncate",
     "bw.pwrite", "bw.pwrite(str)", "bw.write", "bw.write(str)",
     "bw.pput:w1", "bw.pput:w2", "bw.pput:w4", "bw.pput:w8", "bw.put:w1", "bw.put:w2", "bw.put:w4", "bw.put:w8",
-    "sw.pput:w1", "sw.pput:w2", "sw.pput:w4", "sw.pput:w8", "sw.append"};
+    "sw.pput:w1", "sw.pput:w2", "sw.pput:w4", "sw.pput:w8", "sw.append",
+    "sw.put<T>(alias)", "sw.write(alias)", "sw.write(own str)", "sw.pput<T>(alias)"};
 static_assert(NOPS <= MAX_OPS, "op table too small");
 
 static int width_slot6(int w) { return w == 1 ? 0 : w == 2 ? 1 : w == 3 ? 2 : w == 4 ? 3 : w == 6 ? 4 : 5; }
@@ -240,6 +242,15 @@ static string render_call(const K& k) {
     case OP_SW_PPUT_W1: case OP_SW_PPUT_W2: case OP_SW_PPUT_W4: case OP_SW_PPUT_W8:
       return fmt("StringWriter holding n bytes: %s(offset=0x%" PRIx64 ", v)", nm.c_str(), k.a);
     case OP_SW_APPEND: return fmt("StringWriter holding n bytes: %s(v)", nm.c_str());
+    case OP_SWA_PUT:
+      return fmt("StringWriter w holding n bytes (capacity %" PRIu64 "): w.put<%d-byte record>(ref) with ref = %s at w.str()[%" PRIu64 "]", k.cur0, (int)k.b,
+                 k.adv == 0 ? "StringReader(w.str()).pget<T>(off)" : k.adv == 1 ? "StringReader(w.str()).get<T>()" : "*reinterpret_cast<const T*>(w.str().data()+off)", k.a);
+    case OP_SWA_WRITE:
+      return fmt("StringWriter w holding n bytes (capacity %" PRIu64 "): w.write(w.str().data()+%" PRIu64 ", %" PRIu64 ")", k.cur0, k.a, k.b);
+    case OP_SWA_WRITE_S: return fmt("StringWriter w holding n bytes (capacity %" PRIu64 "): w.write(w.str())", k.cur0);
+    case OP_SWA_PPUT:
+      return fmt("StringWriter w holding n bytes (capacity %" PRIu64 "): w.pput<%d-byte record>(offset=%d+n, ref) with ref = StringReader(w.str()).pget<T>(%" PRIu64 ")", k.cur0,
+                 (int)k.b, k.adv, k.a);
     default: return fmt("%s a=0x%" PRIx64 " b=0x%" PRIx64, nm.c_str(), k.a, k.b);
   }
 }
@@ -1310,6 +1321,154 @@ static void table_bufw() {
     }
 }
 
+// ---------------------------------------------------------------------------------------------
+// Aliasing stage for the growable writer: the value handed to the writer lives inside the writer's own
+// current data (a reference obtained through a StringReader over w.str(), or a cast into w.str()).
+// std::string::append(ptr, n) is required to cope with a source inside the string even when it has to
+// reallocate; a writer that grows first and copies afterwards reads the freed old block.  Oracle: snapshot
+// of the source bytes taken before the call; result must be old data + snapshot.  ASan watches for the
+// use-after-free, the comparison for stale/garbage bytes.
+
+template <int N>
+struct __attribute__((packed)) Rec {
+  uint8_t b[N];
+};
+
+// builds a writer holding n0 pattern bytes; tight: capacity() == size() (any append must move heap data)
+static void alias_fill(StringWriter& w, u64 n0, bool tight, vector<uint8_t>& model) {
+  model.resize(n0);
+  for (u64 i = 0; i < n0; i++) model[i] = (uint8_t)(0x21 + (i * 7) % 90);
+  if (n0) w.write(model.data(), n0);
+  if (tight) w.str().shrink_to_fit();
+}
+static K mka(int op, u64 n0, u64 cap, u64 a, u64 b, int adv, bool realloc) {
+  K k;
+  memset(&k, 0, sizeof(k));
+  k.fam = F_ALIAS;
+  k.op = op;
+  k.acc = op;
+  k.buf = -1;
+  k.n = n0;
+  k.cur0 = cap;
+  k.a = a;
+  k.b = b;
+  k.adv = adv;
+  k.req = realloc ? R_REALLOC : R_INCAP;
+  return k;
+}
+static void alias_judge(K& k, StringWriter& w, const Caught& ex, const vector<uint8_t>& expect) {
+  if (ex.e != E_NONE) return G.viol(k, "threw " + ex.type + " for an append the string can grow to cover");
+  if (w.size() != expect.size()) return G.viol(k, "size after the append is not old size + value size", fmt("size()=%" PRIu64 " expected %zu", (u64)w.size(), expect.size()));
+  if (memcmp(w.str().data(), expect.data(), expect.size())) {
+    size_t i = 0;
+    while (i < expect.size() && (uint8_t)w.str()[i] == expect[i]) i++;
+    return G.viol(k, "stored bytes are not the source bytes as they were before the call (source inside the writer's own data)",
+                  fmt("first difference at byte %zu: stored 0x%02x, source snapshot 0x%02x", i, (unsigned)(uint8_t)w.str()[i], (unsigned)expect[i]));
+  }
+  G.hit(k, O_SLICE);
+}
+// how: 0 = StringReader::pget<T>(off), 1 = StringReader::get<T>() after go(off), 2 = reinterpret_cast
+template <int N>
+static void do_alias_put(u64 n0, bool tight, u64 src, int how) {
+  StringWriter w;
+  vector<uint8_t> model;
+  alias_fill(w, n0, tight, model);
+  u64 cap = w.str().capacity();
+  K k = mka(OP_SWA_PUT, n0, cap, src, N, how, n0 + N > cap);
+  if (!G.start(k)) return;
+  vector<uint8_t> expect = model;
+  expect.insert(expect.end(), model.begin() + src, model.begin() + src + N);  // snapshot of the source
+  Caught ex = guarded([&] {
+    StringReader r(w.str());
+    if (how == 0) w.put<Rec<N>>(r.pget<Rec<N>>(src));
+    else if (how == 1) {
+      r.go(src);
+      w.put<Rec<N>>(r.get<Rec<N>>());
+    } else w.put<Rec<N>>(*reinterpret_cast<const Rec<N>*>(w.str().data() + src));
+  });
+  G.end_call();
+  alias_judge(k, w, ex, expect);
+}
+static void do_alias_write(u64 n0, bool tight, u64 src, u64 len, bool whole_string) {
+  StringWriter w;
+  vector<uint8_t> model;
+  alias_fill(w, n0, tight, model);
+  u64 cap = w.str().capacity();
+  if (whole_string) {
+    src = 0;
+    len = n0;
+  }
+  K k = mka(whole_string ? OP_SWA_WRITE_S : OP_SWA_WRITE, n0, cap, src, len, 0, n0 + len > cap);
+  if (!G.start(k)) return;
+  vector<uint8_t> expect = model;
+  expect.insert(expect.end(), model.begin() + src, model.begin() + src + len);
+  Caught ex = guarded([&] {
+    if (whole_string) w.write(w.str());
+    else w.write(w.str().data() + src, len);
+  });
+  G.end_call();
+  alias_judge(k, w, ex, expect);
+}
+// positional write whose value lives in the writer (only with --arg alias_pput=1, see notes): the
+// destination [n0+gap, n0+gap+N) lies at/after the end, so source and destination never overlap
+template <int N>
+static void do_alias_pput(u64 n0, bool tight, u64 src, int gap) {
+  StringWriter w;
+  vector<uint8_t> model;
+  alias_fill(w, n0, tight, model);
+  u64 cap = w.str().capacity();
+  K k = mka(OP_SWA_PPUT, n0, cap, src, N, gap, n0 + gap + N > cap);
+  if (!G.start(k)) return;
+  vector<uint8_t> expect = model;
+  expect.resize(n0 + gap, 0);
+  expect.insert(expect.end(), model.begin() + src, model.begin() + src + N);
+  Caught ex = guarded([&] {
+    StringReader r(w.str());
+    w.pput<Rec<N>>(n0 + gap, r.pget<Rec<N>>(src));
+  });
+  G.end_call();
+  alias_judge(k, w, ex, expect);
+}
+template <int N>
+static void alias_for_width(u64 n0, bool tight, bool with_pput) {
+  if (n0 < (u64)N) return;
+  set<u64> srcs = {0, n0 - N, (n0 - N) / 2, n0 >= (u64)N + 1 ? 1 : 0};
+  for (u64 src : srcs) {
+    for (int how = 0; how < 3; how++) do_alias_put<N>(n0, tight, src, how);
+    if (with_pput)
+      for (int gap : {0, 1, 5}) do_alias_pput<N>(n0, tight, src, gap);
+  }
+}
+static void table_alias() {
+  bool with_pput = C->arg("alias_pput") == "1";
+  g_group = (u64)F_ALIAS * 5;
+  // sizes around the SSO limit (15/16), around the first heap capacities (30, 60, 120, ...) and larger
+  vector<u64> n0s;
+  for (u64 x = 1; x <= 34; x++) n0s.push_back(x);
+  for (u64 x : initializer_list<u64>{47, 48, 59, 60, 61, 63, 64, 65, 119, 120, 121, 127, 128, 240, 255, 256, 1000, 4096}) n0s.push_back(x);
+  if (C->thorough())
+    for (u64 x = 35; x <= 300; x++) n0s.push_back(x);
+  for (u64 n0 : n0s)
+    for (int tight = 0; tight < 2; tight++) {
+      if (!C->mine(g_group++)) continue;
+      alias_for_width<1>(n0, tight, with_pput);
+      alias_for_width<2>(n0, tight, with_pput);
+      alias_for_width<3>(n0, tight, with_pput);
+      alias_for_width<4>(n0, tight, with_pput);
+      alias_for_width<8>(n0, tight, with_pput);
+      alias_for_width<13>(n0, tight, with_pput);
+      alias_for_width<16>(n0, tight, with_pput);
+      alias_for_width<32>(n0, tight, with_pput);
+      alias_for_width<64>(n0, tight, with_pput);
+      set<u64> lens = {1, 2, n0 / 2, n0 - 1, n0};
+      for (u64 len : lens) {
+        if (len == 0 || len > n0) continue;
+        for (u64 src : set<u64>{0, n0 - len, (n0 - len) / 2}) do_alias_write(n0, tight, src, len, false);
+      }
+      do_alias_write(n0, tight, 0, 0, true);
+    }
+}
+
 static void table_strw() {
   g_group = (u64)F_STRW * 5;
   vector<u64> n0s = {0, 1, 3, 15, 16, 17, 64};
@@ -1459,6 +1618,7 @@ int main(int argc, char** argv) {
   for (auto& st : stages)
     if (want(FAM_NAME[st.fam])) G.run_family(st.fam, st.body);
   if (want("cursor_past_end")) G.run_family(F_PAST, table_past, false, true);
+  if (want("string_writer_alias")) G.run_family(F_ALIAS, table_alias, false, true);
   if (want("history")) G.run_family(F_HISTORY, histories_body, true);
 
   G.merge_into_ctx();
